@@ -184,7 +184,7 @@ Section Proofs.
                      /\ answer_shape (sv_jsonclass srv) (request_form srvf m) (request_id m) o
     end.
   Proof.
-    unfold single_dispatch.
+    unfold single_dispatch, single_dispatch_with.
     destruct (is_notification m) eqn:Hn.
     - destruct (sv_pool srv); cbn [andb]; [reflexivity|].
       destruct (run_target body sigs (sv_reg srv) dm s p) as [[] log]; reflexivity.
